@@ -13,7 +13,18 @@ use serde_json::{json, Map, Value};
 
 /// Root for evidence/, replays/ and KNOWN_FINDINGS.txt (env VERIF_ROOT overrides; used only for development copies).
 pub fn verif_root() -> PathBuf {
-    PathBuf::from(std::env::var("VERIF_ROOT").unwrap_or_else(|_| "/verif".to_string()))
+    if let Ok(v) = std::env::var("VERIF_ROOT") {
+        return PathBuf::from(v);
+    }
+    // <root>/harness/target/debug/<lab>: a snapshot or copy of /verif writes into itself, not into /verif
+    if let Ok(exe) = std::env::current_exe() {
+        if let Some(root) = exe.ancestors().nth(4) {
+            if root.join("harness").is_dir() && root.join("properties.jsonl").is_file() {
+                return root.to_path_buf();
+            }
+        }
+    }
+    PathBuf::from("/verif")
 }
 
 #[derive(Clone, Copy, PartialEq, Eq, Debug)]
